@@ -3,4 +3,5 @@ let table : (string * ((Model.z list -> Model.z list) * (Model.z list -> Model.z
   ("C14", (Model.run_c14, Model.chk_c14));
   ("C19", (Model.run_c19, Model.chk_c19));
   ("C16", (Model.run_c16, Model.chk_c16));
+  ("C17", (Model.run_c17, Model.chk_c17));
 ]
